@@ -225,7 +225,28 @@ func (this *DefaultInputBitStream) readFromInputStream(count int) (int, error) {
 	}
 
 	this.read += (int64(this.position << 3))
-	size, err := this.is.Read(this.buffer[0:count])
+	size := 0
+	var err error
+
+	// The underlying reader may return fewer bytes than requested (pipes, sockets):
+	// fill the buffer so that a partial word only occurs at the end of the stream
+	for empty := 0; size < count && err == nil; {
+		var n int
+		n, err = this.is.Read(this.buffer[size:count])
+
+		if n <= 0 {
+			// Tolerate a few empty reads (legal for an io.Reader), then give up
+			if empty++; empty >= 100 {
+				break
+			}
+
+			continue
+		}
+
+		empty = 0
+		size += n
+	}
+
 	this.position = 0
 
 	if size <= 0 {
